@@ -556,10 +556,6 @@ class io_epoll_context::read_sender {
       }
 
       if (result == -EAGAIN || result == -EWOULDBLOCK || result == -EPERM) {
-        if constexpr (is_stop_ever_possible) {
-          stopCallback_.construct(
-              get_stop_token(receiver_), cancel_callback{*this});
-        }
         UNIFEX_ASSERT(
             static_cast<completion_base*>(this)->enqueued_.load() == 0);
         static_cast<completion_base*>(this)->execute_ =
@@ -568,6 +564,13 @@ class io_epoll_context::read_sender {
         event.data.ptr = static_cast<completion_base*>(this);
         event.events = EPOLLIN | EPOLLRDHUP | EPOLLHUP;
         (void)epoll_ctl(context_.epollFd_.get(), EPOLL_CTL_ADD, fd_, &event);
+        // Install the stop callback only after registering with epoll: it may
+        // run at once (or concurrently on another thread) and removes the
+        // registration, which must not be added again after that.
+        if constexpr (is_stop_ever_possible) {
+          stopCallback_.construct(
+              get_stop_token(receiver_), cancel_callback{*this});
+        }
         return;
       }
 
@@ -790,11 +793,6 @@ class io_epoll_context::write_sender {
       }
 
       if (result == -EAGAIN || result == -EWOULDBLOCK || result == -EPERM) {
-        if constexpr (is_stop_ever_possible) {
-          stopCallback_.construct(
-              get_stop_token(receiver_), cancel_callback{*this});
-        }
-
         UNIFEX_ASSERT(
             static_cast<completion_base*>(this)->enqueued_.load() == 0);
         static_cast<completion_base*>(this)->execute_ =
@@ -803,6 +801,13 @@ class io_epoll_context::write_sender {
         event.data.ptr = static_cast<completion_base*>(this);
         event.events = EPOLLOUT | EPOLLRDHUP | EPOLLHUP;
         (void)epoll_ctl(context_.epollFd_.get(), EPOLL_CTL_ADD, fd_, &event);
+        // Install the stop callback only after registering with epoll: it may
+        // run at once (or concurrently on another thread) and removes the
+        // registration, which must not be added again after that.
+        if constexpr (is_stop_ever_possible) {
+          stopCallback_.construct(
+              get_stop_token(receiver_), cancel_callback{*this});
+        }
         return;
       }
 
